@@ -76,10 +76,14 @@ def gen_ops(rng, disk_names, nops, uni_weight, incoherent):
         elif r < 0.60 + 0.15 * uni_weight:
             us = rng.sample(CODES, rng.randint(0, 2))
             ops.append(["setUnicodes", name, us])
-        elif r < 0.85:
+        elif r < 0.80:
             rec = gen_rec(rng, name, incoherent)
             ops.append(["edit", name, rec["comps"], rec["image"], rec["kind"]])
-        elif r < 0.92:
+        elif r < 0.84:
+            ops.append(["setWidth", name, rng.choice([100, 250, 640])])
+        elif r < 0.87:
+            ops.append(["readOutline", name])
+        elif r < 0.93:
             ops.append(["save"])
         else:
             ops.append(["touchUni"])
@@ -126,6 +130,10 @@ def enc_op(op):
         return [Atom("edit"), op[1], list(op[2]), opt(op[3]), ol, of]
     if k in ("save", "touchUni"):
         return [Atom(k)]
+    if k == "readOutline":
+        return [Atom("get"), op[1]]
+    if k == "setWidth":
+        return [Atom("touch"), op[1]]
     raise ValueError(op)
 
 
@@ -291,6 +299,15 @@ class Impl(object):
                 self.keep.append(g)
                 apply_rec(g, dict(comps=op[2], image=op[3], kind=op[4]), with_unicodes=False)
                 g.dirty = True
+            elif k == "setWidth":
+                g = layer[op[1]]
+                self.keep.append(g)
+                g.width = op[2]
+            elif k == "readOutline":
+                g = layer[op[1]]
+                self.keep.append(g)
+                len(g)
+                g.bounds
             elif k == "save":
                 if self.font.path is None:
                     self.font.save(os.path.join(self.tmpd, "m.ufo"))
@@ -313,7 +330,7 @@ class Impl(object):
 
 class Shadow(object):
     def __init__(self, disk):
-        self.g = {n: dict(rec) for n, rec in disk}
+        self.g = {n: dict(rec, width=500) for n, rec in disk}
         self.touched = False
 
     def do(self, op):
@@ -322,9 +339,9 @@ class Shadow(object):
         if k == "get":
             return op[1] in g
         if k == "new":
-            g[op[1]] = dict(unicodes=[], comps=[], image=None, kind=0)
+            g[op[1]] = dict(unicodes=[], comps=[], image=None, kind=0, width=0)
         elif k == "insert":
-            g[op[1]] = dict(op[2])
+            g[op[1]] = dict(op[2], width=0)
         elif k == "delete":
             if op[1] not in g:
                 return False
@@ -342,6 +359,12 @@ class Shadow(object):
             if op[1] not in g:
                 return False
             g[op[1]] = dict(g[op[1]], comps=list(op[2]), image=op[3], kind=op[4])
+        elif k == "setWidth":
+            if op[1] not in g:
+                return False
+            g[op[1]] = dict(g[op[1]], width=op[2])
+        elif k == "readOutline":
+            return op[1] in g
         elif k == "touchUni":
             self.touched = True
         return True
@@ -359,6 +382,48 @@ class Shadow(object):
                 for c in r["unicodes"]:
                     uni.setdefault(c, set()).add(n)
         return dict(keys=keys, comps=comps, images=images, outlines=outl, uni=uni)
+
+
+def read_back(path):
+    """{name: (unicodes, comps, image, kind, width)} of the default layer, read with ufoLib only"""
+    from fontTools.ufoLib import UFOReader
+    res = {}
+    with UFOReader(path, validate=False) as r:
+        gs = r.getGlyphSet()
+        for n in gs.keys():
+            o = _G()
+            o.width = 0
+            o.unicodes = []
+            o.image = None
+
+            class P(object):
+                def __init__(s):
+                    s.comps = []
+                    s.contours = []
+
+                def beginPath(s, **k):
+                    s.cur = []
+
+                def addPoint(s, pt, segmentType=None, **k):
+                    s.cur.append(segmentType)
+
+                def endPath(s):
+                    s.contours.append(s.cur)
+
+                def addComponent(s, base, tr, **k):
+                    s.comps.append(base)
+            pen = P()
+            gs.readGlyph(n, o, pen)
+            if not pen.contours:
+                kind = 0
+            elif any(t in ("line", "curve", "qcurve") for c in pen.contours for t in c):
+                kind = 2
+            elif any(t == "move" for c in pen.contours for t in c):
+                kind = 1
+            else:
+                kind = 3
+            res[n] = (list(o.unicodes or []), pen.comps, (o.image or {}).get("fileName"), kind, int(o.width or 0))
+    return res
 
 
 def _observed(snap, impl):
@@ -422,6 +487,18 @@ def run_case(case, prop, judged):
                 continue
             if not status_ok:
                 stats["err.KeyError"] = stats.get("err.KeyError", 0) + 1
+            if op is not None and op[0] == "save" and "saved" in judged and impl.font.path is not None:
+                got = read_back(impl.font.path)
+                want = {n: (list(r["unicodes"]), list(r["comps"]), r["image"], r["kind"], r.get("width", 500))
+                        for n, r in shadow.g.items()}
+                if got != want:
+                    bad = sorted(n for n in set(got) | set(want) if got.get(n) != want.get(n))
+                    n0 = bad[0]
+                    what = "missing" if n0 not in got else ("leftover" if n0 not in want else "content")
+                    viol.append(dict(clause="%s/saved-differs" % prop, signature="%s/saved-differs/%s" % (prop, what),
+                                     step=i - n_setup, op=op, glyph=n0, expected=want.get(n0), observed=got.get(n0),
+                                     variant=case["variant"]))
+                    continue
             for q in ("keys", "comps", "images", "outlines", "uni"):
                 if q not in judged:
                     continue
@@ -452,7 +529,7 @@ def run_case(case, prop, judged):
                     break
         stats["uni_checked_steps"] = uni_checked
         stats["len"] = len(case["ops"])
-        nontrivial = any(o[0] in ("delete", "rename", "new", "insert", "setUnicodes", "edit") for o in case["ops"]) and len(case["disk"]) > 0
+        nontrivial = any(o[0] in ("delete", "rename", "new", "insert", "setUnicodes", "edit", "setWidth") for o in case["ops"]) and len(case["disk"]) > 0
         return dict(out=outs, viol=viol, info=dict(nontrivial=nontrivial, stats=stats))
     finally:
         shutil.rmtree(tmpd, ignore_errors=True)
